@@ -328,7 +328,7 @@ func toTensors(ts []*tensor.Dense) []tensor.Tensor {
 	return out
 }
 
-var c10DTs = []DT{dtInt8, dtBool, dtInt16, dtF32, dtF64, dtC128, dtStr}
+var c10DTs = []DT{dtInt8, dtBool, dtInt16, dtF32, dtF64, dtC128, dtStr, dtInt, dtInt32, dtInt64, dtUint, dtUint8, dtUint16, dtUint32, dtUint64, dtC64, dtUintptr, dtUnsafe, dtRec24, dtArr6}
 var c10Layouts = []string{"contig", "lazyT", "sliced", "stepsliced", "materialized", "physT", "Tsliced", "slicedT", "leadsliced", "picked", "pickslice"}
 
 func genC10(rt *rapid.T, op string, d DT, unfit bool) *C10Case {
